@@ -32,8 +32,27 @@ template <class Q> static bool fifo_stress(std::string& why, const char* name) {
     if (bad) { why = std::string(name) + ": " + std::to_string(bad.load()) + " items lost, duplicated or out of per-producer order under a 4-producer/2-consumer run"; return true; }
     return false;
 }
+struct Thrower { int v; Thrower() : v(0) {} explicit Thrower(int x) : v(x) { if (x < 0) throw 1; } };
+// a popper sleeps on ticket 0; the push that takes ticket 0 throws (no notification), the push with ticket 1 stores an item: the sleeper must be woken by notify(1)
+static bool lost_wakeup(std::string& why) {
+    for (int round = 0; round < 3; ++round) {
+        tbb::concurrent_bounded_queue<Thrower> q; std::atomic<int> got{-1};
+        std::thread c([&] { Thrower t; try { q.pop(t); got = t.v; } catch (...) { got = -2; } });
+        for (int i = 0; i < 2000 && q.size() != -1; ++i) std::this_thread::sleep_for(1ms);
+        std::this_thread::sleep_for(50ms);
+        try { q.emplace(-1); } catch (int) {}
+        q.emplace(7);
+        for (int i = 0; i < 3000 && got == -1; ++i) std::this_thread::sleep_for(1ms);
+        bool bad = got == -1;
+        if (bad) q.abort();
+        c.join();
+        if (bad) { why = "concurrent_bounded_queue: a consumer sleeping in pop() (ticket 0) is still asleep 3 s after emplace(-1) threw (ticket 0, invalid slot) and emplace(7) stored an item (ticket 1): the notification for ticket 1 did not wake the sleeper with context 0"; return true; }
+    }
+    return false;
+}
 int main(int argc, char** argv) {
     std::string job = argc > 1 ? argv[1] : "", why;
+    if (job.rfind("wake", 0) == 0 && lost_wakeup(why)) { std::printf("REPRODUCED class=bounded-queue-lost-wakeup %s\n", why.c_str()); return 0; }
     if (negative_size_try_push(why)) { std::printf("REPRODUCED class=bounded-queue-false-full %s\n", why.c_str()); return 0; }
     if (fifo_stress<tbb::concurrent_queue<int>>(why, "concurrent_queue<int>") || fifo_stress<tbb::concurrent_bounded_queue<int>>(why, "concurrent_bounded_queue<int>")) { std::printf("REPRODUCED class=queue-fifo %s\n", why.c_str()); return 0; }
     std::printf("NOT-REPRODUCED\n"); return 0;
